@@ -5,10 +5,13 @@
 From RT Require Export Model.TyOps.
 
 Record args_variant := {
-  fix_union_check : bool   (* union subset admitted; object classes compared inside unions *)
+  fix_union_check : bool;     (* union subset admitted; object classes compared inside unions *)
+  rest_skips_defaults : bool  (* a parameter with a default after the rest parameter reserves no argument *)
 }.
-Definition pinned_args := {| fix_union_check := false |}.
-Definition fixed_args := {| fix_union_check := true |}.
+Definition pinned_args := {| fix_union_check := false; rest_skips_defaults := false |}.
+Definition fixed_args := {| fix_union_check := true; rest_skips_defaults := true |}.
+(* the code between the two repairs: union check repaired, trailing `?Block` still reserving an argument *)
+Definition rest_pinned_args := {| fix_union_check := true; rest_skips_defaults := false |}.
 
 Inductive ekind :=
 | ETypeMismatch | ETooFew | ETooMany | EExtraArg | ENamedMissing | ENotDefined | EKwargsExpected.
@@ -141,7 +144,8 @@ Section Args.
     else if is_star d then
       if Nat.ltb n i then SBreak s
       else
-        let must := List.length (filter (fun x => negb (is_key_suffix x)) rest) in
+        let must := List.length (filter (fun x => negb (is_key_suffix x) &&
+                                                  negb (rest_skips_defaults V && opt_has_default (tget (w_tbl s) x))) rest) in
         let pos := take_while (fun t => negb (is_keyvalue_type t)) (skipn i args) in
         (* the rest parameter of a configured method keeps its declaration (repaired code) *)
         let bind := fun v => match tget (w_tbl s) (drop1 d) with
